@@ -3,6 +3,7 @@ package main
 import (
 	"encoding/binary"
 	"fmt"
+	"github.com/openacid/slim/index"
 	"os"
 	"path/filepath"
 	"sort"
@@ -384,6 +385,35 @@ func fresh(enc string) (st *trie.SlimTrie) {
 		}
 	}
 	return st
+}
+
+// buildIndex builds the spec through index.NewSlimIndex when it can express it
+// (int64 values, default options); nil otherwise.
+func (s *TrieSpec) buildIndex() (si *index.SlimIndex) {
+	if s.Enc != "i64" || s.ValIDs == nil || s.Opt != [4]int8{-1, -1, -1, -1} {
+		return nil
+	}
+	defer func() {
+		if r := recover(); r != nil {
+			if a, ok := r.(abortUnit); ok {
+				panic(a)
+			}
+			si = nil
+		}
+	}()
+	vals, ok := valuesOf("i64", s.ValIDs, 0).([]int64)
+	if !ok || len(vals) != len(s.Keys) {
+		return nil
+	}
+	items := make([]index.OffsetIndexItem, len(s.Keys))
+	for i, k := range s.Keys {
+		items[i] = index.OffsetIndexItem{Key: string(k), Offset: vals[i]}
+	}
+	x, err := index.NewSlimIndex(items, offsetReader{})
+	if err != nil {
+		return nil
+	}
+	return x
 }
 
 // ---------------------------------------------------------------------------
